@@ -39,9 +39,9 @@ WordClass(P, w) ==
   ELSE LET lit == LitAt(case, sp, P, w)  sub == SubAt(case, sp, P, w)  cmd == CmdAt(case, sp, P, w)  star == StarAt(sp, P) IN
        IF lit # {} THEN "literal"
        ELSE IF sub # {} THEN
-              (IF \E p \in sub : \E l \in InnerLevels(sp.sub[p]) : InnerReqAt(case, sp.sub[p], w, l) # {}
-               THEN "word_value_with_longer_sibling"
-               ELSE IF UnfinishedAt(P, w) THEN "word_value_beside_unfinished_word" ELSE "word_value")
+              (IF UnfinishedAt(P, w) THEN "word_value_beside_unfinished_word"
+               ELSE IF \E p \in sub : \E l \in InnerLevels(sp.sub[p]) : InnerReqAt(case, sp.sub[p], w, l) # {}
+               THEN "word_value_with_longer_sibling" ELSE "word_value")
        ELSE IF cmd # {} THEN
               (IF UnfinishedAt(P, w) THEN "command_candidate_beside_unfinished_word"
                ELSE IF \E p \in P \ {END} : IsCmdK(sp.top.item[p].k) /\ w \notin CandsOf(case, sp.top.item[p])
